@@ -789,16 +789,29 @@ where
         ),
     };
 
-    // Convert the hashmap into vector, leaving only large-enough groups:
-    hash_map
+    let mut hashed_groups: Vec<_> = hash_map
         .into_iter()
         .map(|((len, hash), files)| FileGroup {
             file_len: len,
             file_hash: hash,
             files: files.to_vec(),
         })
+        .collect();
+    // The examined files belong to the files of the same length and hash
+    for group in examined_groups {
+        let same_key = |g: &&mut FileGroup<FileInfo>| {
+            g.file_len == group.file_len && g.file_hash == group.file_hash
+        };
+        match hashed_groups.iter_mut().find(same_key) {
+            Some(g) => g.files.extend(group.files),
+            None => hashed_groups.push(group),
+        }
+    }
+
+    // Leave only large-enough groups:
+    hashed_groups
+        .into_iter()
         .chain(groups_to_pass)
-        .chain(examined_groups)
         .filter(group_post_filter)
         .collect()
 }
